@@ -12,6 +12,8 @@ pub struct MapShape {
     pub sparse: bool,
     pub sourceless_segments: bool,
     pub sources_content: bool,
+    /// 0 = covers the program from its first line, 1 = first token late in the file, 2 = no mapping at all
+    pub coverage: u8,
 }
 
 pub fn gen_shape(rng: &mut Rng) -> MapShape {
@@ -29,6 +31,7 @@ pub fn gen_shape(rng: &mut Rng) -> MapShape {
         // one-field segments (generated code without an original position) in some maps
         sourceless_segments: rng.chance(1, 4),
         sources_content: rng.chance(1, 3),
+        coverage: *rng.pick(&[0u8, 0, 0, 0, 0, 0, 0, 1, 1, 2]),
     }
 }
 
@@ -97,8 +100,18 @@ pub fn gen_orig_map(rng: &mut Rng, program: &str, shape: &MapShape) -> Map {
             sc += rng.range(1, 12) as u32;
         }
     }
-    if m.toks.is_empty() {
-        m.toks.push(Tok { gl: 0, gc: 0, src: Some(0), sl: 0, sc: 0, name: None });
+    match shape.coverage {
+        1 => {
+            // only the last quarter of the lines is mapped
+            let n_lines = program.split('\n').count() as u32;
+            m.toks.retain(|t| t.gl * 4 >= n_lines * 3);
+        }
+        2 => m.toks.clear(),
+        _ => {
+            if m.toks.is_empty() {
+                m.toks.push(Tok { gl: 0, gc: 0, src: Some(0), sl: 0, sc: 0, name: None });
+            }
+        }
     }
     m
 }
